@@ -35,6 +35,16 @@ Theorem C34_to_json_spec : forall attr_ent attr_rev attr_hidden obj_ent (rules :
 Proof. exact to_json_now_spec. Qed.
 Print Assumptions C34_to_json_spec.
 
+(* with include=[relationship]: the top object and every object reached through the relationship - already loaded or not - is one
+   the declared rules let the user view *)
+Theorem C34_to_json_include_spec : forall attr_ent attr_rev attr_hidden obj_ent (rules : nat -> nat -> list rule) ugroups uroles olabels related o l,
+  to_json_include rev_loop_iterates_reverse_rules obj_exclusion_tests_entity missing_reverse_rules_returns_false
+                  attr_ent attr_rev attr_hidden obj_ent rules ugroups uroles olabels related o = Some l ->
+  l = o :: related o /\ forall o', In o' l -> spec attr_ent attr_rev attr_hidden obj_ent rules ugroups uroles olabels VIEW (TObj o')
+                                             \/ spec attr_ent attr_rev attr_hidden obj_ent rules ugroups uroles olabels EDIT (TObj o').
+Proof. exact to_json_include_now_spec. Qed.
+Print Assumptions C34_to_json_include_spec.
+
 Theorem C34_to_json_refuses_spec : forall attr_ent attr_rev attr_hidden obj_ent (rules : nat -> nat -> list rule) ugroups uroles olabels objs,
   to_json_objects rev_loop_iterates_reverse_rules obj_exclusion_tests_entity missing_reverse_rules_returns_false
                   attr_ent attr_rev attr_hidden obj_ent rules ugroups uroles olabels objs = None
